@@ -28,8 +28,8 @@ CHECKS = {
    technique="deterministic simulation: lock-stepped loopback transport with enumerated fragmentation and frame-limit faults",
    note="Trusted base: kernel loopback TCP; the harness copy of the documented per-type limits; inter-fragment gaps far below the I/O timeouts."),
  "C11": dict(engine="wiresim", cat="exploration", ref="5/C11",
-   text="A simulated hostile peer feeds the real Codec (and, in a forked child, MerkleProof::from_hex) structure-aware mutations of real encodings of every message type at every protocol version: truncation + close, boundary values in every 64/32/16-bit window, every count-like window set to values around the decoders' own caps (with and without truncation shortly after), tag sweeps, random bodies, inconsistent lengths, spliced bodies. The reader thread must not panic, must return after EOF, and no single allocation may exceed twice the announced frame length (which the codec reserves, and refuses above 4x the per-type limit) plus 16x the bytes actually received plus 256 KiB; decoded values go through the stateless pre-state checks (validate_read, segment root reconstruction against the archive header). Bare frame headers announcing limit+1 .. 2^64-1 bytes for known and unused type bytes go through the Codec and through read_message in forked children (panic, abort, hang and over-allocation are exit statuses). One case in five a simulated hostile API client drives the real Foreign and Owner JSON-RPC dispatch over a real chain, pool and peer store with valid requests of every method and structure-aware mutations of their JSON trees and text, and feeds mutated replies to the typed decoders API consumers use (incl. OutputPrintable with its Merkle proof from hex): no panic, an answer within 20 s, allocation bounded by the document size.",
-   technique="deterministic simulation: byzantine peer on a simulated stream transport and byzantine API client on the JSON-RPC dispatch, with panic, allocation and liveness oracles",
+   text="A simulated hostile peer feeds the real Codec (and, in a forked child, MerkleProof::from_hex) structure-aware mutations of real encodings of every message type at every protocol version: truncation + close, boundary values in every 64/32/16-bit window, every count-like window set to values around the decoders' own caps (with and without truncation shortly after), tag sweeps, random bodies, inconsistent lengths, spliced bodies. The reader thread must not panic, must return after EOF, and no single allocation may exceed twice the announced frame length (which the codec reserves, and refuses above 4x the per-type limit) plus 16x the bytes actually received plus 256 KiB; decoded values go through the stateless pre-state checks (validate_read, segment root reconstruction against the archive header). Bare frame headers announcing limit+1 .. 2^64-1 bytes for known and unused type bytes go through the Codec and through read_message in forked children (panic, abort, hang and over-allocation are exit statuses). One case in five a simulated hostile API client drives the real Foreign and Owner JSON-RPC dispatch over a real chain, pool and peer store with valid requests of every method and structure-aware mutations of their JSON trees and text, and feeds mutated replies to the typed decoders API consumers use (incl. OutputPrintable with its Merkle proof from hex): no panic, an answer within 20 s, allocation bounded by the document size. One case in five (E11 netsim) the hostile peer talks to a complete real node - conn reader / writer threads, Codec, Protocol, TrackingAdapter, Peers, NetToChainAdapter handlers over a real chain and pool -: every message type valid and mutated (length-consistent), and well-formed requests / answers naming things that are not there; no node thread may panic, every message is followed by a Pong or a closed connection, allocation stays bounded by the frame length, and the node still serves an honest peer afterwards.",
+   technique="deterministic simulation: byzantine peer on a simulated stream transport (against the decoders, and lock-stepped against a complete real node) and byzantine API client on the JSON-RPC dispatch, with panic, allocation and liveness oracles",
    note="Trusted base: counting global allocator in the harness; release arithmetic; only single-message streams plus one split are explored per mutation; hyper/TLS/auth in front of the JSON-RPC handlers and the stratum server are not run."),
  "C09": dict(engine="crashsim", cat="fault_enumeration", ref="5/C09",
    text="Fault enumeration: for each scenario (plain extension with spends of several ages, header-then-block, losing fork block, reorg with spends, header-only reorg, compaction, compaction followed by a block, block after compaction) every labelled durable step is enumerated; a forked child opens a copy of the base directory, runs the operation and _exits at that step; the parent reopens the surviving directory and requires Chain::init Ok, head old/new/ancestor, validate(false), unspent set equal to the replayed ledger, an identical second reopen and convergence with an uninterrupted twin after re-delivery. Second level (crash during recovery): for survivors whose restart has recovery work to do and which pass the oracle, the restart itself is killed at each of its crash points and the oracle applied again. Known, unrepaired defects are listed in known_findings.json and reported as KNOWN-FINDING.",
@@ -130,7 +130,7 @@ def main():
              "kind_free_text": "seeded baton scheduler over real threads on one real Chain"},
             {"name": "dbsim", "path": "/verif/sim/src/dbsim.rs", "serves_properties": [p for p in claimed if p == "C18"],
              "kind_free_text": "real LMDB wrapper against a nested-transaction map model; seeded thread schedules; crash points around commit"},
-            {"name": "netsim", "path": "/verif/sim/src/netsim.rs", "serves_properties": [p for p in claimed if p in ("C03", "C06", "C14", "C16")],
+            {"name": "netsim", "path": "/verif/sim/src/netsim.rs", "serves_properties": [p for p in claimed if p in ("C03", "C06", "C11", "C14", "C16")],
              "kind_free_text": "one real node with its complete p2p stack (Peers, Peer, Handshake, conn threads, Protocol, servers adapters, pool, chain) against simulated remote peers on lock-stepped loopback sockets"},
             {"name": "chainsim", "path": "/verif/sim/src/chainsim.rs", "serves_properties": [p for p in claimed if CHECKS[p]["engine"] == "chainsim" or p == "C08"],
              "kind_free_text": "deterministic simulation of N real Chain nodes on a simulated network with byzantine inputs"},
